@@ -132,6 +132,9 @@ func init() {
 		"Whether emitted files parse and type-check in their languages needs the five toolchains and is NOT decided.", func(w *World, r *Report) {
 		wc := buildWire(w, r)
 		c07EveryKind(wc, r)
+		wireKindHasStep(wc, r, "C07", []string{"enc", "dec"})
+		kindArmDoesSomething(w, wc, r, "C07", nil)
+		rowUsedWhereFound(w, wc, r, "C07")
 		memberNamedByField(w, wc, r, "C07")
 		wireTables(w, r, "C07")
 		wireLEColumn(wc, r, "C07", "enc")
@@ -157,6 +160,7 @@ func init() {
 		wc := buildWire(w, r)
 		c17Samples(w, r)
 		c17Coverage(w, wc, r)
+		kindArmDoesSomething(w, wc, r, "C17", map[string]bool{"test": true})
 		c17CopyBack(w, wc, r)
 		c17StickyState(w, wc, r)
 		wireEmitOnceKeys(w, wc, r, "C17")
